@@ -350,7 +350,7 @@ func TestC07(t *testing.T) {
 		"variations: payload {UDP 0/1/7/1200 B with 0x00/0xff/counter bytes, SCMP traceroute request, SCMP echo request, TCP} x extension headers " +
 		"{none, HBH, E2E, both, long both} x traffic class/flow id {0xb8/0xdead1, all ones, all zeros} x host address kinds {v4/v4, v6/v4, v4/v6, v6/v6, v6/SVC} x " +
 		"router-alert flags {4 combinations on the handled hops} x {no flags / all flags on the other hops}; quick: every axis fully at two anchor " +
-		"settings of the others; thorough: full product of payload x extension x hosts x alerts with traffic class/flow id cycling (pairwise with every axis); plus one-hop paths (first and second router) over every own interface x the same variations. " +
+		"settings of the others; thorough: full product of payload x extension x hosts x alerts with traffic class/flow id cycling (pairwise with every axis); plus one-hop paths (first and second router) over every own interface x the same variations x the second hop field as received {zero, only ExpTime / ConsIngress / ConsEgress / MAC / alert flags set, fully populated, all ones}. " +
 		"long segments: every case also with each segment position in turn lengthened (foreign hop fields inserted behind the first / in front of the last hop of the segment) to 31, 32, 33, 48 and the maximum the 64-hop limit allows (<= 63), and with all segments long at once (64 hops), at three anchor variations (thorough: both insertion points and the quick axis sweep); " +
 		"distinct key = case+segment lengths+type+config+variation; non-trivial = all"
 	var nHarness atomic.Int64
@@ -561,64 +561,69 @@ func TestC07(t *testing.T) {
 					for tcf := 0; tcf < c07NTcf; tcf++ {
 						for hosts := 0; hosts < c07NHosts; hosts++ {
 							for lenDev := 0; lenDev < 3; lenDev++ {
-								v := c07Var{pay, ext, tcf, hosts, 0}
-								segID, ts := uint16(0x0c07), now-10
-								base := rtr.Case{}
-								base.Pkt = rtr.Pkt{TrafficClass: 0xb8, FlowID: 0xdead1, PathType: rtr.PathOneHop,
-									Src: rtr.V4("172.16.1.1"), Dst: rtr.V4("10.0.0.200")}
-								hop := rtr.Hop{In: 0, Eg: 77, Exp: 63, Mac: [6]byte{1, 2, 3, 4, 5, 6}}
-								in := rtr.FromExt(j.ifID)
-								if j.ingress {
-									base.Pkt.SrcIA, base.Pkt.DstIA = uint64(rtr.NbrIA(j.ifID)), uint64(rtr.LocalIA)
-								} else {
-									in = rtr.FromHost
-									base.Pkt.SrcIA, base.Pkt.DstIA = uint64(rtr.LocalIA), uint64(rtr.NbrIA(j.ifID))
-									base.Pkt.Src, base.Pkt.Dst = rtr.V4("10.0.0.100"), rtr.V4("172.16.2.2")
-									hop.Eg = j.ifID
-									full := rtr.FullHopMAC(key, segID, ts, hop.Exp, 0, hop.Eg)
-									copy(hop.Mac[:], full[:6])
-								}
-								base.Pkt.Segs = []rtr.Seg{{ConsDir: true, SegID: segID, TS: ts, Hops: []rtr.Hop{hop}}}
-								p := c07Apply(&base, v)
-								raw, lay := p.Serialize()
-								switch lenDev {
-								case 1: // bytes after the declared payload
-									raw = append(raw, 0xde, 0xad, 0xbe, 0xef)
-								case 2: // declared payload length larger than what follows
-									binary.BigEndian.PutUint16(raw[6:], binary.BigEndian.Uint16(raw[6:])+8)
-								}
-								res := rt.Process(raw, in)
-								k := fmt.Sprintf("ohp|if%d|ingress=%v|%v|len%d", j.ifID, j.ingress, v, lenDev)
-								r.Case(k, true)
-								detail := func(what string) map[string]any {
-									return map[string]any{"case": k, "what": what, "disp": dispName(res.Fast.Disp),
-										"in": fmt.Sprintf("%x", raw[:min(len(raw), 200)]), "out": fmt.Sprintf("%x", res.Out[:min(len(res.Out), 200)])}
-								}
-								if res.Panic != nil {
-									r.Violation("panic:ohp", detail(fmt.Sprint(res.Panic)))
-									rt.VerifStart()
-									continue
-								}
-								if res.Fast.Disp != router.VerifForward {
-									if lenDev == 0 && !(hosts == 4 && !j.ingress) {
-										harness("valid one-hop packet %s: %v", dispName(res.Fast.Disp), detail(""))
+								for si, sec := range c07SecondHops() {
+									v := c07Var{pay, ext, tcf, hosts, 0}
+									segID, ts := uint16(0x0c07), now-10
+									base := rtr.Case{}
+									base.Pkt = rtr.Pkt{TrafficClass: 0xb8, FlowID: 0xdead1, PathType: rtr.PathOneHop,
+										Src: rtr.V4("172.16.1.1"), Dst: rtr.V4("10.0.0.200")}
+									hop := rtr.Hop{In: 0, Eg: 77, Exp: 63, Mac: [6]byte{1, 2, 3, 4, 5, 6}}
+									in := rtr.FromExt(j.ifID)
+									if j.ingress {
+										base.Pkt.SrcIA, base.Pkt.DstIA = uint64(rtr.NbrIA(j.ifID)), uint64(rtr.LocalIA)
 									} else {
-										r.Outcome("ohp-not-accepted-" + dispName(res.Fast.Disp))
+										in = rtr.FromHost
+										base.Pkt.SrcIA, base.Pkt.DstIA = uint64(rtr.LocalIA), uint64(rtr.NbrIA(j.ifID))
+										base.Pkt.Src, base.Pkt.Dst = rtr.V4("10.0.0.100"), rtr.V4("172.16.2.2")
+										hop.Eg = j.ifID
+										full := rtr.FullHopMAC(key, segID, ts, hop.Exp, 0, hop.Eg)
+										copy(hop.Mac[:], full[:6])
 									}
-									continue
-								}
-								var whole [][2]int
-								if j.ingress {
-									whole = [][2]int{{lay.HopOff[1], lay.HopOff[1] + 12}}
-								}
-								if d := c07Diff(raw, res.Out, lay, []int{0}, nil, whole); d != "" {
-									r.Violation("illegal-change:ohp:"+c07Class(d), detail(d))
-									continue
-								}
-								if j.ingress {
-									r.Outcome("ohp-completed-only-second-hop-and-segid")
-								} else {
-									r.Outcome("ohp-sent-only-segid")
+									// the second hop field as the sender left it: nothing authenticates it at the first router, and the
+									// second router replaces it - whatever it holds, the first router must hand it on untouched
+									base.Pkt.Segs = []rtr.Seg{{ConsDir: true, SegID: segID, TS: ts, Hops: []rtr.Hop{hop, sec.h}}}
+									p := c07Apply(&base, v)
+									raw, lay := p.Serialize()
+									switch lenDev {
+									case 1: // bytes after the declared payload
+										raw = append(raw, 0xde, 0xad, 0xbe, 0xef)
+									case 2: // declared payload length larger than what follows
+										binary.BigEndian.PutUint16(raw[6:], binary.BigEndian.Uint16(raw[6:])+8)
+									}
+									res := rt.Process(raw, in)
+									k := fmt.Sprintf("ohp|if%d|ingress=%v|%v|len%d|second-hop=%s", j.ifID, j.ingress, v, lenDev, sec.name)
+									_ = si
+									r.Case(k, true)
+									detail := func(what string) map[string]any {
+										return map[string]any{"case": k, "what": what, "disp": dispName(res.Fast.Disp),
+											"in": fmt.Sprintf("%x", raw[:min(len(raw), 200)]), "out": fmt.Sprintf("%x", res.Out[:min(len(res.Out), 200)])}
+									}
+									if res.Panic != nil {
+										r.Violation("panic:ohp", detail(fmt.Sprint(res.Panic)))
+										rt.VerifStart()
+										continue
+									}
+									if res.Fast.Disp != router.VerifForward {
+										if lenDev == 0 && !(hosts == 4 && !j.ingress) {
+											harness("valid one-hop packet %s: %v", dispName(res.Fast.Disp), detail(""))
+										} else {
+											r.Outcome("ohp-not-accepted-" + dispName(res.Fast.Disp))
+										}
+										continue
+									}
+									var whole [][2]int
+									if j.ingress {
+										whole = [][2]int{{lay.HopOff[1], lay.HopOff[1] + 12}}
+									}
+									if d := c07Diff(raw, res.Out, lay, []int{0}, nil, whole); d != "" {
+										r.Violation("illegal-change:ohp:"+c07Class(d), detail(d))
+										continue
+									}
+									if j.ingress {
+										r.Outcome("ohp-completed-only-second-hop-and-segid")
+									} else {
+										r.Outcome("ohp-sent-only-segid")
+									}
 								}
 							}
 						}
@@ -646,6 +651,28 @@ func TestC07(t *testing.T) {
 		"of the 4-byte path meta header only the first byte (CurrINF, CurrHF) may change: the RSV bits and the three SegLen fields are immutable; explored with segment lengths up to 63 and 64 hops in total (the format's limits) in every segment position",
 	}
 	r.Finish(4)
+}
+
+// c07SecondHops: what the second hop field of a one-hop packet holds when it reaches a router. The sender of a one-hop
+// packet is free to leave anything there (the legacy senders leave zeros); reserved flag bits stay zero (see Assumptions).
+func c07SecondHops() []struct {
+	name string
+	h    rtr.Hop
+} {
+	return []struct {
+		name string
+		h    rtr.Hop
+	}{
+		{"zero", rtr.Hop{}},
+		{"exptime-only", rtr.Hop{Exp: 63}},
+		{"cons-ingress-only", rtr.Hop{In: 0x1234}},
+		{"cons-egress-only", rtr.Hop{Eg: 0x5678}},
+		{"mac-only", rtr.Hop{Mac: [6]byte{0xde, 0xad, 0xbe, 0xef, 0x01, 0x02}}},
+		{"alert-flags-only", rtr.Hop{InAlert: true, EgAlert: true}},
+		{"ingress-alert-only", rtr.Hop{InAlert: true}},
+		{"populated", rtr.Hop{In: 7, Eg: 8, Exp: 200, Mac: [6]byte{0x0f, 0x1e, 0x2d, 0x3c, 0x4b, 0x5a}}},
+		{"all-ones", rtr.Hop{In: 0xffff, Eg: 0xffff, Exp: 0xff, Mac: [6]byte{0xff, 0xff, 0xff, 0xff, 0xff, 0xff}, InAlert: true, EgAlert: true}},
+	}
 }
 
 // c07Class reduces a diff description to a stable class (the header part that changed).
